@@ -420,6 +420,14 @@ def _warnings(ctx):
                                     'min(final_end_mo.end()+right_context,max_end)',
                                     'min((max_end,final_end_mo.end()+right_context))')
     bad_lo = 'start_mo.start()+left_context' in tl.replace(' ', '') or 'start_mo.end()' in tl
+    v_lo = lo_def.value
+    unclamped = isinstance(v_lo, ast.BinOp) and isinstance(v_lo.op, ast.Sub) and any(
+        isinstance(x, ast.Call) and dotted(x.func) == 'max' for x in ast.walk(v_lo.left))
+    if unclamped:
+        ctx.violation('SLICE', 'gen_flags_chunk: the context start is clamped at 0',
+                      f"`{lo} = {tl}` subtracts the left context AFTER clamping: for a trigger word near the start of the text the "
+                      f"slice start is negative, Python counts it from the end and the context comes out empty / without the "
+                      f"triggering words", key="SLICE|gen_flags_chunk|clamp", where=common.loc(gf, lo_def))
     ctx.tri(ok_lo, bad_lo, 'SLICE', 'gen_flags_chunk: context starts at or before the match',
             f"i = {tl}", f"lower bound `{tl}` can lie after the start of the triggering match",
             key="SLICE|gen_flags_chunk|lower")
